@@ -1,6 +1,9 @@
 package main
 
-import "fmt"
+import (
+	"fmt"
+	"strings"
+)
 
 func init() { registry["C09"] = checkC09 }
 
@@ -24,6 +27,8 @@ func checkC09(e *RunEnv) *CheckResult {
 	}
 	// never-tracked files named like a tracked file plus ".tmp" (the name a careless "write, then rename" would use)
 	base = append(base, Write("d/x.tmp", "not tracked\n"), Write("g.tmp", "not tracked\n"))
+	// ... and one whose blob id contains two 0x00 bytes (it becomes part of every HEAD tree below)
+	base = append(base, Write("d0", findContent("z", func(id string) bool { return strings.Count(id, "00") >= 3 })))
 	seed1 := append(append([]Step{}, base...), Run("add", "d/x", "d/y", "d/s", "ad", "d.c", "a(b", "g", "d0", "big"), Run("commit", "-m", "c1"))
 	seed2 := append(append([]Step{}, seed1...), Write("d/x", v2("d/x")), Run("add", "d/x"), Write("d/x", "d/x v3\n"), Delete("d/y"), Rmdir("ad"), Run("rm", "g"), Write("n", v1("n")), Run("add", "n"))
 	spec := &Spec{
